@@ -122,19 +122,88 @@ ASSUMPTIONS = [
     "dask.dataframe is imported through the pyarrow import stub (pandas-backed strings); sync scheduler",
 ]
 BUDGET = {"quick": 120, "thorough": 900}
+MEASURED_MIN_QUICK = {      # minimum over the seeds 0, 1, 2, 7, 12345 on the unchanged tree (complete streams of 2720 cases)
+    "c36_pipelines_checked": 581, "consumer_reads_former_index_column": 185, "empty_partitions_checked": 1444,
+    "frame_results": 1269, "index-dtype:cat": 85, "index-dtype:dt": 77, "index-dtype:int": 183, "index-dtype:str": 87,
+    "index:named": 84, "index:named-index": 51, "index:named-like-column": 100, "index:unnamed": 200,
+    "index_results": 73, "indexcol_programs_checked": 466, "meta_checked_partitions": 8098,
+    "meta_checked_results": 2546, "move:add_prefix": 5, "move:add_suffix": 3, "move:filter": 63,
+    "move:index_to_frame": 39, "move:index_to_series": 41, "move:project": 11, "move:rename": 49,
+    "move:rename_axis": 99, "move:reset_index": 282, "move:set_index": 60, "move:squeeze": 27, "move:to_frame": 46,
+    "ops_programs_checked": 1953, "public_views_checked": 2546, "pushdown:abs": 8, "pushdown:add_prefix": 7,
+    "pushdown:add_suffix": 7, "pushdown:bfill": 5, "pushdown:clear_divisions": 7, "pushdown:copy": 8,
+    "pushdown:cumsum": 7, "pushdown:diff": 4, "pushdown:drop": 7, "pushdown:dropna": 8, "pushdown:dropna-subset": 8,
+    "pushdown:explode": 7, "pushdown:ffill": 5, "pushdown:fillna": 7, "pushdown:fillna-dict": 8,
+    "pushdown:head-elemwise": 8, "pushdown:head-repartition": 7, "pushdown:index-to_frame": 6,
+    "pushdown:index-to_series": 4, "pushdown:invert": 8, "pushdown:isna": 8, "pushdown:loc-cols": 7,
+    "pushdown:map_partitions-required": 8, "pushdown:mulmul": 8, "pushdown:neg": 8, "pushdown:notnull": 8,
+    "pushdown:partitions": 7, "pushdown:rename": 7, "pushdown:rename-swap": 8, "pushdown:rename_axis": 7,
+    "pushdown:repartition": 7, "pushdown:replace": 8, "pushdown:round": 8, "pushdown:sample": 7,
+    "pushdown:series-rename": 8, "pushdown:set_columns": 8, "pushdown:shift": 6, "pushdown:tail-elemwise": 8,
+    "pushdown:to_frame": 8, "pushdown_programs_checked": 296, "scalar_results": 114, "select-after:astype": 23,
+    "select-after:concat": 22, "select-after:groupby-agg": 49, "select-after:merge": 44, "select-after:reduction": 24,
+    "select-after:repartition": 20, "select-after:shuffle": 43, "select-after:window": 19,
+    "select_after_programs_checked": 293, "series_reset_index_single_getcol:index-column": 53,
+    "series_reset_index_single_getcol:values": 16, "series_reset_index_single_getcol_of_column_index": 29,
+    "series_reset_index_then_consumer": 68, "series_results": 1027, "simplify_rewrote:indexcol": 360,
+    "simplify_rewrote:pushdown": 264, "simplify_rewrote:select-after": 232, "tail:arith1": 57, "tail:arith2": 48,
+    "tail:assign": 17, "tail:assign-getcols": 48, "tail:count": 13, "tail:filter": 24, "tail:filter-getcol": 91,
+    "tail:filter-getcols": 54, "tail:filter-index": 10, "tail:getcol": 168, "tail:getcols": 104,
+    "tail:getcols-index": 12, "tail:index": 14, "tail:reduce": 34, "tail:reset-getcol": 22, "tail:reset-getcols": 7,
+    "tail:s-arith": 16, "tail:s-filter": 23, "tail:s-index": 6, "tail:s-label": 8, "tail:s-reduce": 7,
+    "tail:s-to_frame-getcol": 6, "tail:self": 33, "tail:sfilter": 39, "values_compared_with_pandas": 712,
+    "values_compared_with_unconsumed_result": 280,
+}
+MEASURED_MIN_THOROUGH = {   # one complete thorough run (seed 0, 32400 cases) on the unchanged tree
+    "c36_pipelines_checked": 8899, "consumer_reads_former_index_column": 1564, "empty_partitions_checked": 18591,
+    "frame_results": 17625, "index-dtype:cat": 684, "index-dtype:dt": 721, "index-dtype:int": 1460,
+    "index-dtype:str": 688, "index:named": 795, "index:named-index": 387, "index:named-like-column": 786,
+    "index:unnamed": 1585, "index_results": 833, "indexcol_programs_checked": 3553, "meta_checked_partitions": 98093,
+    "meta_checked_results": 30487, "move:add_prefix": 74, "move:add_suffix": 44, "move:filter": 579,
+    "move:index_to_frame": 356, "move:index_to_series": 365, "move:project": 149, "move:rename": 414,
+    "move:rename_axis": 865, "move:reset_index": 2226, "move:set_index": 502, "move:squeeze": 272,
+    "move:to_frame": 378, "ops_programs_checked": 21588, "public_views_checked": 30487, "pushdown:abs": 59,
+    "pushdown:add_prefix": 59, "pushdown:add_suffix": 59, "pushdown:bfill": 45, "pushdown:clear_divisions": 58,
+    "pushdown:combine_first": 25, "pushdown:combine_first-other": 7, "pushdown:copy": 59, "pushdown:cumsum": 58,
+    "pushdown:diff": 49, "pushdown:drop": 59, "pushdown:dropna": 59, "pushdown:dropna-subset": 59,
+    "pushdown:explode": 59, "pushdown:ffill": 46, "pushdown:fillna": 57, "pushdown:fillna-dict": 59,
+    "pushdown:head-elemwise": 58, "pushdown:head-repartition": 58, "pushdown:index-to_frame": 57,
+    "pushdown:index-to_series": 45, "pushdown:invert": 59, "pushdown:isna": 59, "pushdown:loc-cols": 58,
+    "pushdown:map_partitions-required": 58, "pushdown:mulmul": 58, "pushdown:neg": 59, "pushdown:notnull": 59,
+    "pushdown:partitions": 58, "pushdown:rename": 59, "pushdown:rename-swap": 59, "pushdown:rename_axis": 56,
+    "pushdown:repartition": 58, "pushdown:replace": 59, "pushdown:round": 59, "pushdown:sample": 58,
+    "pushdown:series-rename": 58, "pushdown:set_columns": 59, "pushdown:shift": 46, "pushdown:tail-elemwise": 58,
+    "pushdown:to_frame": 58, "pushdown_programs_checked": 2249, "scalar_results": 1302, "select-after:astype": 210,
+    "select-after:concat": 191, "select-after:groupby-agg": 440, "select-after:merge": 443,
+    "select-after:reduction": 211, "select-after:repartition": 185, "select-after:shuffle": 378,
+    "select-after:window": 177, "select_after_programs_checked": 2235,
+    "series_reset_index_single_getcol:index-column": 509, "series_reset_index_single_getcol:values": 149,
+    "series_reset_index_single_getcol_of_column_index": 284, "series_reset_index_then_consumer": 606,
+    "series_results": 10727, "simplify_rewrote:indexcol": 2804, "simplify_rewrote:pushdown": 2029,
+    "simplify_rewrote:select-after": 1834, "tail:arith1": 486, "tail:arith2": 532, "tail:assign": 167,
+    "tail:assign-getcols": 388, "tail:count": 104, "tail:filter": 229, "tail:filter-getcol": 773,
+    "tail:filter-getcols": 452, "tail:filter-index": 125, "tail:getcol": 1527, "tail:getcols": 846,
+    "tail:getcols-index": 136, "tail:index": 125, "tail:reduce": 340, "tail:reset-getcol": 229,
+    "tail:reset-getcols": 113, "tail:s-arith": 150, "tail:s-filter": 191, "tail:s-filter-index": 36,
+    "tail:s-index": 49, "tail:s-label": 70, "tail:s-reduce": 82, "tail:s-to_frame-getcol": 133, "tail:self": 406,
+    "tail:sfilter": 348, "values_compared_with_pandas": 5433, "values_compared_with_unconsumed_result": 2113,
+}
+
+
+def _floors(measured):
+    """45 % of the measured counts (counters that would get a floor of 0 carry none)"""
+    return {k: int(v * 0.45) for k, v in measured.items() if int(v * 0.45) >= 1}
+
+
 FLOORS = {
-    # measured on the unchanged tree (seeds 0,1,2,7,12345, complete streams of 1600 cases): results checked >= 1438, partitions
-    # >= 4570 (empty >= 868), c36 pipelines >= 553, ops programs >= 885, series/frame/scalar/index results >= 372/965/56/19
-    "quick": {"evaluations": 720, "distinct_nontrivial": 440,
-              "counters": {"meta_checked_results": 650, "meta_checked_partitions": 2000, "empty_partitions_checked": 390,
-                           "public_views_checked": 650, "c36_pipelines_checked": 250, "ops_programs_checked": 400,
-                           "scalar_results": 25, "index_results": 8, "series_results": 165, "frame_results": 430},
-              "sets": {"program_forms": 300}, "max_skipped_fraction": 0.35},
-    "thorough": {"evaluations": 10800, "distinct_nontrivial": 6600,
-                 "counters": {"meta_checked_results": 9700, "meta_checked_partitions": 30000, "empty_partitions_checked": 5800,
-                              "public_views_checked": 9700, "c36_pipelines_checked": 3700, "ops_programs_checked": 6000,
-                              "scalar_results": 370, "index_results": 120, "series_results": 2500, "frame_results": 6500},
-                 "sets": {"program_forms": 2000}, "max_skipped_fraction": 0.35},
+    # quick: 2720 evaluations, >= 1796 distinct non-trivial; skipped (rejected + unsupported) <= 6.2 %
+    "quick": {"evaluations": 1220, "distinct_nontrivial": 800, "counters": _floors(MEASURED_MIN_QUICK),
+              "sets": {"program_forms": 700, "consumer_kinds": 18, "index_variants": 45, "pushdown_ops": 30},
+              "max_skipped_fraction": 0.35},
+    # thorough: 32400 evaluations, 21644 distinct non-trivial
+    "thorough": {"evaluations": 14500, "distinct_nontrivial": 9700, "counters": _floors(MEASURED_MIN_THOROUGH),
+                 "sets": {"program_forms": 4667, "consumer_kinds": 18, "index_variants": 60, "pushdown_ops": 32},
+                 "max_skipped_fraction": 0.35},
 }
 EXHAUSTIVE_SPACE = None
 CLAIM = ("For every generated program (C36 pipelines, compact reduction / groupby / merge / concat / shuffle / window / "
@@ -832,4 +901,8 @@ def run_case(case, ctx):
         head = c36.expr_heads(desc["steps"][k - 1]) if fam.split(":")[0] in ("series", "filter", "assign") else None
         klass = "c36:%s%s" % (fam, "[%s]" % head if head and fam.split(":")[0] == "series" else "")
         detail["shortest_prefix"] = desc["steps"][:k]
+    if consumer and klass.startswith("indexcol:") and facet == "meta-name" and "meta name 0, computed None" in msg and \
+            "unnamed-series" in Q.indexcol_features(desc, detail.get("tail")):
+        # (the single reader appears only after a filter / projection was pushed below reset_index)
+        klass = "indexcol:series.reset_index>getcol:values-of-unnamed-series"
     ctx.violation(mechanism_label(case, label_desc, klass, facet, detail.get("shortest_prefix")), msg, **detail)
